@@ -162,8 +162,8 @@ func hexAddrs(known ...string) []val {
 func hashes(env *stateEnv, contract string, extra ...types.Hash) []val {
 	var out []val
 	for i, h := range env.IDs[contract] {
-		if i < 2 {
-			out = append(out, v([]string{"entry", "entry2"}[i], h))
+		if i < 3 {
+			out = append(out, v([]string{"entry", "entry2", "entry3"}[i], h))
 		}
 	}
 	for _, h := range extra {
@@ -227,6 +227,9 @@ func domainFor(c *contractDef, m *abi.Method, ai int, env *stateEnv, actorIdx in
 	key := c.Name + "." + m.Name + "." + name
 	switch ty {
 	case "bool":
+		if name == "owned" {
+			return []val{v("false", false), v("true", true)}
+		}
 		return []val{v("true", true), v("false", false)}
 	case "address":
 		return addrs(c, actorIdx)
@@ -235,7 +238,12 @@ func domainFor(c *contractDef, m *abi.Method, ai int, env *stateEnv, actorIdx in
 	case "hash":
 		switch {
 		case c.Name == "accelerator":
-			return hashes(env, "accelerator")
+			h := hashes(env, "accelerator")
+			if m.Name == definition.AddPhaseMethodName && len(h) >= 5 {
+				// a phase can be added to the project that has none yet (stranger's)
+				h[0], h[2] = h[2], h[0]
+			}
+			return h
 		case c.Name == "bridge" && name == "transactionHash":
 			if m.Name == definition.UnwrapTokenMethodName {
 				return dedupe([]val{v("new", types.HexToHashPanic("00000000000000000000000000000000000000000000000000000000000c0902")), v("entry", env.UnwrapTx), v("zero", types.ZeroHash)})
